@@ -164,3 +164,11 @@ impl<T: Ord + Copy> BinaryHeap<T> {
         match best { Some(b) => self.slots[b].as_ref(), None => None }
     }
 }
+
+// std's Extend on the two stand-in collections (a rewrite of the sampler with iterator adapters uses it)
+impl<T: Eq + Copy> HashSet<T> {
+    pub(crate) fn extend<I: IntoIterator<Item = T>>(&mut self, it: I) { for v in it { self.insert(v); } }
+}
+impl<T: Ord + Copy> BinaryHeap<T> {
+    pub(crate) fn extend<I: IntoIterator<Item = T>>(&mut self, it: I) { for v in it { self.push(v); } }
+}
